@@ -714,7 +714,8 @@ def indexdim(res, uf):
             # stride: an array with nc > 1 columns is addressed as nc*row + column; a single index variable with coefficient 1
             # addresses element `row` of the flattened array, i.e. row/nc, column row%nc
             ncols = ncol.get(fld)
-            if good and ncols and ncols > 1 and off is None:
+            if good and ncols and ncols > 1 and off is None and p and p <= (io | {"nactuator"}):
+                # (only an index known to be a row id of the actuator family: a flat loop over all entries is not one)
                 from .. import linform as _lf
                 try:
                     lf_ = _lf.linform(idx, {})
@@ -806,6 +807,14 @@ MUTANTS = [
      "edits": [(FWD, "        mjtNum err = ctrl[uadr] - d->actuator_length[oadr];", "        mjtNum err = ctrl[uadr] - d->actuator_length[i];")]},
     {"id": "ctrl-copy-by-actuator-id", "expect": ("R-INDEXDIM", "mj_fwdActuation"),
      "edits": [(FWD, "      d->act_dot[act_last] = (ctrl[uadr] - d->act[act_last]) / tau;", "      d->act_dot[act_last] = (ctrl[i] - d->act[act_last]) / tau;")]},
+    {"id": "cranklength-by-output-address", "expect": ("R-INDEXDIM", "mj_transmission:actuator_cranklength"),
+     "edits": [("src/engine/engine_core_smooth.c", "mjtNum rod = m->actuator_cranklength[i];", "mjtNum rod = m->actuator_cranklength[out];")]},
+    {"id": "lengthrange-stored-by-actuator-id", "expect": ("R-INDEXDIM", "mj_setLengthRange:actuator_lengthrange"),
+     "edits": [("src/engine/engine_setconst.c", "m->actuator_lengthrange[2*out+side] = (side == 0", "m->actuator_lengthrange[2*index+side] = (side == 0")]},
+    {"id": "trnid-bare-row-index", "expect": ("R-INDEXDIM", "mj_setLengthRange:actuator_trnid"),
+     "edits": [("src/engine/engine_setconst.c", "int threadid = m->actuator_trnid[2*index];", "int threadid = m->actuator_trnid[index];")]},
+    {"id": "ctl-lengthrange-local-row", "expect": None,
+     "edits": [("src/engine/engine_setconst.c", "m->actuator_lengthrange[2*out+side] = (side == 0", "mjtNum* lr = m->actuator_lengthrange + 2*out;\n    lr[side] = (side == 0")]},
     # controls
     {"id": "ctl-rename-copy", "expect": None,
      "edits": [(FWD, "  mjtNum *ctrl = mjSTACKALLOC(d, nu, mjtNum);", "  mjtNum *ctrl_local = mjSTACKALLOC(d, nu, mjtNum);\n  mjtNum *ctrl = ctrl_local;")]},
